@@ -476,7 +476,7 @@ pub fn check(s: &'static dyn Proto, c: &Case, st: &mut Stats, _k: &KnownFindings
 
 pub const BUDGET: Budget = Budget {
     quick: (8, 5, 3),
-    thorough: (40, 24, 10),
+    thorough: (80, 40, 16),
     shrink: 4,
 };
 
